@@ -153,6 +153,11 @@ def showOutcome (o : Outcome) : String :=
   let ms := (o.sink.reported.map (showMsg "")).foldr insertStr []
   s!"result={o.result} crit={b01 o.sink.crit} n={ms.length} [" ++ " | ".intercalate ms ++ "]"
 
+/-- what every schedule must agree on when the key is the id: the multiset of printed keys, the result counter, the critical flag -/
+def showKeys (o : Outcome) : String :=
+  let ks := (o.sink.reported.map (fun m => toHex m.id)).foldr insertStr []
+  s!"result={o.result} crit={b01 o.sink.crit} [" ++ " ".intercalate ks ++ "]"
+
 def pfiles : Nat → P (List (List Msg))
   | 0 => pure []
   | n + 1 => do let k ← pnat; let ms ← prep pmsg k; let r ← pfiles n; pure (ms :: r)
@@ -221,11 +226,11 @@ def step (line : String) : String :=
         let total := (fs.map List.length).sum
         if kind == "t" then
           match tWalk cfg raws (4 * total + 4 * fs.length + 4 * jobs + 8) seed (tinit files jobs) 0 with
-          | some (s, n) => s!"X steps={n} same={b01 (showOutcome s.outcome == showOutcome single)} {showOutcome s.outcome}"
+          | some (s, n) => s!"X steps={n} same={b01 (showKeys s.outcome == showKeys single)} {showOutcome s.outcome}"
           | none => "X stuck"
         else
           match pWalk cfg jobs raws (4 * total + 8 * fs.length + 8) seed (pinit files) 0 with
-          | some (s, n) => s!"X steps={n} same={b01 (showOutcome s.outcome == showOutcome single)} {showOutcome s.outcome}"
+          | some (s, n) => s!"X steps={n} same={b01 (showKeys s.outcome == showKeys single)} {showOutcome s.outcome}"
           | none => "X stuck"
       | _ => "bad-op"
     | _, _, _, _ => "bad-op"
